@@ -233,6 +233,104 @@ Proof.
   rewrite (parse_sort_bad_start t Hbad Hne). reflexivity.
 Qed.
 
+(* ------------------------------------------------------------------ sortlist: prefix length out of range *)
+(* parse_sort never reports ENOMEM (or "success" as an error) and never has undefined behaviour *)
+Definition soft_err (s : Z) : Prop := s <> ARES_ENOMEM /\ s <> ARES_SUCCESS.
+
+Lemma soft_badstr : soft_err ARES_EBADSTR. Proof. split; discriminate. Qed.
+Lemma soft_notfound : soft_err ARES_ENOTFOUND. Proof. split; discriminate. Qed.
+
+Lemma fetch_string_res n s : (fetch_string n s = Ok s) \/ (exists e, fetch_string n s = Err e /\ soft_err e /\ e <> ARES_ENOTFOUND).
+Proof.
+  unfold fetch_string. destruct (n - 1 <? length s)%nat; [right; eexists; repeat split; try reflexivity; discriminate|].
+  destruct (forallb isprint s); [left; reflexivity|right; eexists; repeat split; try reflexivity; discriminate].
+Qed.
+
+Lemma parse_sort_res e :
+  match parse_sort nf e with Ok _ => True | Err s => soft_err s | UB _ => False end.
+Proof.
+  unfold parse_sort. destruct (dropwhile isspace e) as [|b0 br]; [exact soft_notfound|].
+  destruct (span (fun c => mem c s_ipcharset) (b0 :: br)) as [ip rest].
+  destruct ip as [|i0 ir]; [exact soft_badstr|].
+  destruct (fetch_string_res 46 (i0 :: ir)) as [->|(x & -> & Hx & _)]; [|exact Hx]. cbn [bind].
+  destruct (nf_pton nf (i0 :: ir)) as [a|]; [|exact soft_badstr].
+  assert (forall (res : outcome (Z * bytes)),
+            match res with Ok _ => True | Err s => soft_err s | UB _ => False end ->
+            match (do res0 <- res; let '(mask, rest2) := res0 in
+                   match dropwhile isspace rest2 with [] => Ok (mkApat a (mask mod 256)%Z) | _ => Err ARES_EBADSTR end)
+            with Ok _ => True | Err s => soft_err s | UB _ => False end) as K.
+  { intros [[m r2]|s|k] H; cbn [bind]; [|exact H|exact H]. destruct (dropwhile isspace r2); [exact I|exact soft_badstr]. }
+  apply K. clear K.
+  destruct rest as [|c r]; [exact I|]. destruct (c =? ch_slash); [|exact I].
+  destruct (span (fun c0 => mem c0 s_digits_dot) r) as [m rest2]. destruct m as [|m0 mr]; [exact soft_badstr|].
+  destruct (fetch_string_res 16 (m0 :: mr)) as [->|(x & -> & Hx & _)]; [|exact Hx]. cbn [bind].
+  destruct (str_isnum (m0 :: mr)) eqn:En.
+  - destruct (Nat.ltb_spec 3 (length (m0 :: mr))) as [|Hl]; [exact soft_badstr|].
+    unfold str_isnum in En. apply andb_true_iff in En as [_ En].
+    destruct (atoi_digits (m0 :: mr) En) as [-> _]; [lia|]. cbn [bind].
+    destruct ((digits_value (m0 :: mr) <? 0)%Z || (128 <? digits_value (m0 :: mr))%Z); [exact soft_badstr|].
+    destruct (match a with A4 _ => true | A6 _ => false end && (32 <? digits_value (m0 :: mr))%Z)%bool; [exact soft_badstr|exact I].
+  - destruct (nf_pton4 nf (m0 :: mr)); [exact I|exact soft_badstr].
+Qed.
+
+Lemma parse_sort_bad_mask t : bad_mask_token t = true ->
+  exists s, parse_sort nf t = Err s /\ soft_err s /\ s <> ARES_ENOTFOUND.
+Proof.
+  assert (soft_err ARES_EBADSTR /\ ARES_EBADSTR <> ARES_ENOTFOUND) as B by (split; [exact soft_badstr|discriminate]).
+  unfold bad_mask_token, parse_sort. intros H.
+  destruct (dropwhile isspace t) as [|b0 br]; [discriminate|].
+  destruct (span (fun c => mem c s_ipcharset) (b0 :: br)) as [ip rest]. cbn [snd] in H.
+  destruct ip as [|i0 ir]; [eexists; split; [reflexivity|exact B]|].
+  destruct (fetch_string_res 46 (i0 :: ir)) as [->|(x & -> & Hx & Hy)]; [|exists x; auto]. cbn [bind].
+  destruct (nf_pton nf (i0 :: ir)) as [a|]; [|eexists; split; [reflexivity|exact B]].
+  destruct rest as [|c r]; [discriminate|]. destruct (c =? ch_slash); [|discriminate].
+  destruct (span (fun c0 => mem c0 s_digits_dot) r) as [m rest2]. cbn [fst] in H.
+  apply andb_true_iff in H as [H Hbig]. apply andb_true_iff in H as [Hd Hne].
+  destruct m as [|m0 mr]; [discriminate|].
+  destruct (fetch_string_res 16 (m0 :: mr)) as [->|(x & -> & Hx & Hy)]; [|exists x; auto]. cbn [bind].
+  assert (str_isnum (m0 :: mr) = true) as -> by (unfold str_isnum; rewrite Hd; reflexivity).
+  destruct (Nat.ltb_spec 3 (length (m0 :: mr))) as [|Hl]; [eexists; split; [reflexivity|exact B]|].
+  destruct (atoi_digits (m0 :: mr) Hd) as [-> _]; [lia|]. cbn [bind].
+  apply orb_true_iff in Hbig as [Hbig|Hbig]; [discriminate|].
+  rewrite Hbig, orb_true_r. eexists; split; [reflexivity|exact B].
+Qed.
+
+Lemma parse_sort_entries_bad_mask es : forall acc, existsb bad_mask_token es = true ->
+  exists s, parse_sort_entries nf es acc = Err s /\ soft_err s.
+Proof.
+  induction es as [|e r IH]; intros acc H; [discriminate|]. cbn [existsb parse_sort_entries] in *.
+  destruct (bad_mask_token e) eqn:Eb.
+  - destruct (parse_sort_bad_mask e Eb) as (s & -> & H1 & H2).
+    destruct (Z.eqb_spec s ARES_ENOTFOUND); [congruence|]. eauto.
+  - cbn [orb] in H. pose proof (parse_sort_res e) as R. destruct (parse_sort nf e) as [p|s|k]; [apply IH; exact H| |contradiction].
+    destruct (s =? ARES_ENOTFOUND)%Z; [apply IH; exact H|eauto].
+Qed.
+
+(* ares_parse_sortlist (and with it ares_set_sortlist) refuses such a string *)
+Lemma parse_sortlist_bad_mask s : sortlist_has_bad_mask s = true ->
+  exists st, parse_sortlist nf s = Err st /\ soft_err st.
+Proof.
+  unfold sortlist_has_bad_mask, tokens, parse_sortlist. intros H. destruct s as [|c r]; [discriminate|].
+  apply parse_sort_entries_bad_mask. exact H.
+Qed.
+
+Lemma dispatch_sortlist_bad_mask ifs cfg rest1 v1 vr :
+  existsb bad_mask_token (tokens s_sep_sortlist (v1 :: vr)) = true ->
+  resolv_dispatch nf true ifs cfg k_sortlist rest1 (v1 :: vr) = Ok cfg.
+Proof.
+  intros H. unfold resolv_dispatch, kw. simpl (bytes_eqb k_sortlist _). cbn [orb].
+  unfold parse_sortlist. unfold tokens in H.
+  destruct (parse_sort_entries_bad_mask _ [] H) as (s & -> & Hs & _).
+  destruct (Z.eqb_spec s ARES_ENOMEM); [congruence|reflexivity].
+Qed.
+
+(* ares_set_sortlist with such a string fails and leaves the channel as it was *)
+Lemma set_sortlist_bad_mask c s : sortlist_has_bad_mask s = true ->
+  exists st, chan_set_sortlist nf c s = Ok (st, c) /\ soft_err st.
+Proof.
+  intros H. destruct (parse_sortlist_bad_mask s H) as (st & E & Hs). unfold chan_set_sortlist. rewrite E. eauto.
+Qed.
+
 Lemma dispatch_sortlist_empty ifs cfg rest1 v1 vr :
   tokens s_sep_sortlist (v1 :: vr) = [] ->
   resolv_dispatch nf true ifs cfg k_sortlist rest1 (v1 :: vr) = Ok cfg.
@@ -509,8 +607,9 @@ Proof.
   destruct (bytes_eqb (keyword_of (c :: r)) k_sortlist) eqn:E2.
   { apply bytes_eqb_eq in E2. rewrite E2.
     destruct (tokens s_sep_sortlist (v1 :: vr)) as [|t ts] eqn:Et; [intros _; apply dispatch_sortlist_empty; exact Et|].
-    destruct (cannot_start_pattern t) eqn:Eb; [|discriminate].
-    intros _. eapply dispatch_sortlist_junk; eassumption. }
+    destruct (cannot_start_pattern t) eqn:Eb; [intros _; eapply dispatch_sortlist_junk; eassumption|].
+    destruct (existsb bad_mask_token (t :: ts)) eqn:Em; [|discriminate].
+    intros _. apply dispatch_sortlist_bad_mask. rewrite Et. exact Em. }
   destruct (bytes_eqb (keyword_of (c :: r)) k_options) eqn:E3.
   { apply bytes_eqb_eq in E3. rewrite E3.
     destruct (forallb junk_option_plain (buf_split s_sep_ws true false false 0 (v1 :: vr))) eqn:Et.
